@@ -25,11 +25,6 @@ impl rand_core::RngCore for CR {
 
 impl rand_core::CryptoRng for CR {}
 
-impl CR {
-    /// A fresh, independent stream derived from this one.
-    pub fn fork(&mut self) -> CR { CR(vmon_core::Rng::new(self.0.next())) }
-}
-
 pub fn sha256(parts: &[&[u8]]) -> [u8; 32] {
     let mut h = Sha256::new();
     for p in parts {
